@@ -26,12 +26,13 @@ STEP_BUDGET = 20000
 def families(quick):
     d = 2 if quick else 3
     return {
-        'power': dict(Ops='{"Power"}', LeafSet='{3, 10, 32}' if quick else '{3, 9, 10, 32}', MaxOps=d, MaxNodes=d + 3, MaxLeaves=3),
+        'power': dict(Ops='{"Power"}', LeafSet='{3, 10, 32, 35}' if quick else '{3, 9, 10, 32, 35, 36}', MaxOps=d, MaxNodes=d + 3, MaxLeaves=3),
         'powabs': dict(Ops='{"Power","Absolute","Multiply","IntToFloat"}', LeafSet='{3, 9, 27}', MaxOps=d, MaxNodes=d + 3, MaxLeaves=3),
         'diag': dict(Ops='{"Diagonalize","Take","Inflate","Multiply","TakeDiag"}', LeafSet='{1, 13, 14}', MaxOps=d, MaxNodes=d + 3, MaxLeaves=3),
         'loopsum': dict(Ops='{"LoopSum","Inflate","Multiply"}' if quick else '{"LoopSum","LoopConcat","Inflate","Multiply","Take","Add"}', LeafSet='{22}' if quick else '{1, 13, 22}', MaxOps=3, MaxNodes=5 if quick else 6, MaxLeaves=2 if quick else 3),
         'choose': dict(Ops='{"TakeDiag","Choose","Transpose","InsertAxis"}', LeafSet='{2, 25, 29}' if quick else '{2, 25, 28, 29}', MaxOps=d, MaxNodes=d + 3, MaxLeaves=3),
         'ravel': dict(Ops='{"Ravel","Unravel","Transpose","Sum","Take","Inflate"}', LeafSet='{2, 13}' if quick else '{2, 13, 25, 28}', MaxOps=d, MaxNodes=d + 3, MaxLeaves=2 if quick else 3),
+        'leaves': dict(Ops='{"Negative","Sum","Take","InsertAxis","Transpose","IntToFloat","BoolToInt","LogicalNot","Absolute","Inflate","Diagonalize"}', LeafSet='AllLeaves', MaxOps=1 if quick else 2, MaxNodes=3 if quick else 4, MaxLeaves=2),
         'boolinflate': dict(Ops='{"Inflate","BoolToInt","IntToFloat","Add","LogicalNot","Sum"}', LeafSet='{6, 13, 14}' if quick else '{6, 13, 14, 18}', MaxOps=d, MaxNodes=d + 3, MaxLeaves=3),
         'suminflate': dict(Ops='{"Sum","Inflate","Multiply","Add","InsertAxis"}', LeafSet='{1, 13, 14}', MaxOps=d, MaxNodes=d + 3, MaxLeaves=3),
         'core': dict(Ops='CoreOps', LeafSet='{1, 2, 13}' if quick else '{1, 2, 9, 10, 13, 14, 22}', MaxOps=2, MaxNodes=4 if quick else 5, MaxLeaves=2 if quick else 3),
@@ -218,7 +219,7 @@ def run(rep):
     quick = rep.tier == 'quick'
     fams = families(quick)
     names = list(fams)
-    per = exprs.generate_multi(rep, 'c01-families', [fams[n] for n in names], EmitMin=2, exhaustive=True, timeout=3000)
+    per = exprs.generate_multi(rep, 'c01-families', [fams[n] for n in names], EmitMin=1, exhaustive=True, timeout=3000)
     sel = []
     for n, fp in zip(names, per):
         rep.constants['family:' + n] = len(fp)
